@@ -347,6 +347,10 @@ func (r *symtabRoles) verify(c *Ctx, rule string) {
 
 func propC13(c *Ctx) {
 	l := c.L
+	defer func() {
+		rdu := c.Rule("disable-uncache", "DisableBuiltin removes the symbol Resolve cached for the name while the builtin was enabled: a builtin disabled after an earlier fragment used it is unreachable for later fragments", 1)
+		ruleDisableUncache(c, rdu)
+	}()
 	lib := c.L.RepoFuncs(func(pp string) bool { return pp == modPath })
 	rRoles := c.Rule("roles", "the functions that implement the disabled set behave as their role demands: root() walks to the table with nil parent, the getter and the disabled test read the root table's set, the evaluator's copy function reads the source's root set and writes the destination's root set", 4)
 	rRead := c.Rule("root-read", "every access to SymbolTable.disabledBuiltins is made on a root table (result of root() or a table fresh from NewSymbolTable): the set lives only on the root, so a read on the current scope sees nothing below top level", 5)
